@@ -6,7 +6,12 @@ pub struct Rng(pub u64);
 
 impl Rng {
     pub fn new(seed: u64) -> Self {
-        Rng(seed.wrapping_mul(0x9E3779B97F4A7C15).wrapping_add(0x1234_5678_9ABC_DEF1))
+        // the state must not be an affine function of the seed with the stream's own increment
+        // (seed s+1 would replay seed s shifted by one draw): run the seed through the output mixer first
+        let mut z = seed ^ 0xD6E8_FEB8_6659_FD93;
+        z = (z ^ (z >> 30)).wrapping_mul(0xBF58476D1CE4E5B9);
+        z = (z ^ (z >> 27)).wrapping_mul(0x94D049BB133111EB);
+        Rng(z ^ (z >> 31))
     }
     pub fn next(&mut self) -> u64 {
         // splitmix64
